@@ -825,3 +825,62 @@ Lemma unknown_apps_no_effect strict steps later cache :
 Proof.
   intro H. rewrite run_rpc_app. destruct (unknown_apps_harmless strict steps cache H) as [-> ->]. reflexivity.
 Qed.
+
+(* ---- long secrets ---- *)
+Lemma crypt_block k f fuel a rest pa :
+  a <> [] -> List.length a = k -> f a = Some pa ->
+  crypt k f (S fuel) (a ++ rest) = match crypt k f fuel rest with Some pr => Some (pa ++ pr) | None => None end.
+Proof.
+  intros Ha Hl Hf. destruct a as [|x a]; [congruence|]. cbn [app crypt].
+  change (x :: a ++ rest) with ((x :: a) ++ rest).
+  rewrite <- Hl, firstn_app, firstn_all, Nat.sub_diag, skipn_app, skipn_all, Nat.sub_diag. cbn [firstn skipn app].
+  rewrite app_nil_r, Hf. reflexivity.
+Qed.
+
+(* any number of full blocks, each decrypting, decrypts to the concatenation of the plaintext pieces *)
+Lemma crypt_blocks k f : forall (blocks : list (bytes * bytes)) fuel,
+  (forall b p, In (b, p) blocks -> b <> [] /\ List.length b = k /\ f b = Some p) ->
+  (List.length blocks <= fuel)%nat ->
+  crypt k f fuel (List.concat (map fst blocks)) = Some (List.concat (map snd blocks)).
+Proof.
+  induction blocks as [|[b p] r IH]; intros fuel H Hf; cbn [map List.concat fst snd].
+  - destruct fuel; reflexivity.
+  - destruct fuel as [|fuel]; [simpl in Hf; lia|].
+    destruct (H b p (or_introl eq_refl)) as [H1 [H2 H3]].
+    rewrite (crypt_block k f fuel b _ p H1 H2 H3), IH; [reflexivity| |simpl in Hf; lia].
+    intros b' p' Hin. apply H. right. assumption.
+Qed.
+
+(* ---- encrypted body size ---- *)
+Lemma decrypt_body_size ecb key r :
+  decrypt_body ecb key r = if max_bytes <? r_clen r then DecErr else ecb key r.
+Proof. reflexivity. Qed.
+
+(* ---- the breaker in front of the authorize interceptor ---- *)
+Lemma authenticate_codes strict cache store md :
+  let c := snd (authenticate strict cache store md) in c = rpc_ok \/ c = rpc_unauthenticated \/ c = rpc_internal.
+Proof.
+  destruct (rpc_table strict cache store) as [T1 T2]. destruct (md_creds md) as [[app tok]|] eqn:E.
+  - specialize (T2 md app tok E). destruct (alookup N.eqb app cache) as [t|].
+    + rewrite T2. simpl. destruct (tok =? t)%N; auto.
+    + destruct (store app) as [| |t0]; rewrite T2; simpl.
+      * destruct strict; auto.
+      * destruct strict; auto.
+      * destruct (tok =? t0)%N; auto.
+  - rewrite (T1 md E). simpl. auto.
+Qed.
+
+(* of the answers the authorize interceptor can give, only Internal (strict mode, store failure / no stored
+   token) counts against the method's breaker; Unauthenticated never does *)
+Lemma auth_answer_acceptable strict cache store md :
+  let c := snd (authenticate strict cache store md) in codes_acceptable c = false <-> c = rpc_internal.
+Proof.
+  cbv zeta. destruct (authenticate_codes strict cache store md) as [E|[E|E]]; rewrite E; vm_compute; split; congruence.
+Qed.
+
+Lemma rejections_no_breaker_failures codes :
+  (forall c, In c codes -> c = rpc_ok \/ c = rpc_unauthenticated) -> breaker_failures codes = 0%nat.
+Proof.
+  unfold breaker_failures. induction codes as [|c r IH]; intro H; [reflexivity|]. cbn [filter].
+  destruct (H c (or_introl eq_refl)) as [E|E]; rewrite E; (cbn; apply IH; intros c' Hin; apply H; right; assumption).
+Qed.
